@@ -152,7 +152,29 @@ func genTree(r *rand.Rand, rich bool) Tree {
 		}
 		r.Shuffle(len(names), func(i, j int) { names[i], names[j] = names[j], names[i] })
 		var here []string
+		used := map[string]bool{}
+		// a family of sibling directories whose names are in prefix relation with a next character that sorts
+		// before '/' (space - . + ,): per-directory sorted listings are then not globally sorted
+		if depth < 2 && r.IntN(3) == 0 {
+			base := hx.Pick(r, []string{"a", "k", "d"})
+			sufs := []string{"", ".d", "-b", " b", "+c", ",x"}
+			r.Shuffle(len(sufs), func(i, j int) { sufs[i], sufs[j] = sufs[j], sufs[i] })
+			for _, sf := range sufs[:3+r.IntN(4)] {
+				nm := base + sf
+				used[nm] = true
+				p := append(append([]string{}, prefix...), nm)
+				t = append(t, Ent{Path: p, Kind: "d"})
+				t = append(t, Ent{Path: append(append([]string{}, p...), "f"), Kind: "f"})
+				if r.IntN(2) == 0 {
+					t = append(t, Ent{Path: append(append([]string{}, p...), "x"), Kind: "f"})
+				}
+				here = append(here, nm)
+			}
+		}
 		for i := 0; i < n && i < len(names); i++ {
+			if used[names[i]] {
+				continue
+			}
 			p := append(append([]string{}, prefix...), names[i])
 			switch k := r.IntN(10); {
 			case k < 5:
@@ -237,7 +259,13 @@ var compsQuoted = []string{"'a\\b'*", "\"a\\\\b\"*", "*'\\'", "*'\\'*", "'d\\'?"
 	"'a['*", "?'\\'*", "'x\\'", "*\"\\\\\"", "[ad]'\\'*"}
 var compsWide = []string{"[ab]*", "[!a]*", "[a-c]", "\\*", "\"*\"", "'?'x", "[[:upper:]]*", "[[:lower:]]", "@(a|b)", "!(a)", "*(a|b)", "+(d)", "..", "[.]h", "\"a b\"", "a\\ b", "*\"*\"s", "[*]s", "é", "?(a)b", "{a,b}*"}
 
+// multi-component words whose non-final component matches several siblings
+var wordsPrefixFamily = []string{"a*/f", "a*/", "k*/?", "d*/f", "a*/*", "*/f", "k*/f", "a?*/f", "./a*/f", "*/a*/f", "d*/", "k*/x", "*/k*/?", "a*/.", "?*/f"}
+
 func genWord(r *rand.Rand, wide bool) string {
+	if r.IntN(5) == 0 {
+		return hx.Pick(r, wordsPrefixFamily)
+	}
 	n := 1 + r.IntN(3)
 	if r.IntN(3) == 0 {
 		n = 1
